@@ -38,6 +38,10 @@ def load_known():
     return {e["id"]: e for e in data.get("findings", [])}
 
 
+def _props_of(entry):
+    return entry.get("properties") or [entry.get("property")]
+
+
 # --------------------------------------------------------------------------
 # worker side
 
@@ -235,7 +239,7 @@ def replay_file(path, quiet=False):
     if res["oracle"] == rep["oracle"]:
         known = load_known()
         k = res.get("known")
-        if k and k in known and known[k].get("status") == "open":
+        if k and k in known and known[k].get("status") == "open" and prop in _props_of(known[k]):
             if not quiet:
                 print("KNOWN-FINDING: property=%s %s" % (prop, known[k]["what"]))
             return 0, res
@@ -273,7 +277,7 @@ def check(prop, tier, workers=None, units=None, wall_cap=None, selfcheck=True):
     for f in total.get("failures", []):
         groups.setdefault((f["oracle"], f["known"]), []).append(f)
     for (oracle, kid), fs in sorted(groups.items(), key=lambda kv: (str(kv[0][0]), str(kv[0][1]))):
-        if kid and kid in known and known[kid].get("status") == "open" and known[kid].get("property") == prop:
+        if kid and kid in known and known[kid].get("status") == "open" and prop in _props_of(known[kid]):
             known_seen[kid] = total["fail_counts"][(oracle, kid)]
             lines.append("KNOWN-FINDING: property=%s %s (%s; seen in %d runs of this batch)"
                          % (prop, known[kid]["what"], kid, known_seen[kid]))
